@@ -100,12 +100,88 @@ pub async fn yields(n: usize) {
     }
 }
 
+// ------------------------------------------------------------------ watchdog (wall time)
+
+/// exit code of the harness when one operation made no progress for `TRH_HANG_MS` of WALL time
+pub const HANG_EXIT: i32 = 4;
+static BEAT: AtomicU64 = AtomicU64::new(0);
+static WATCH: Mutex<(String, usize, String)> = Mutex::new((String::new(), 0, String::new()));
+
+/// the real monotonic clock (the interposed `clock_gettime` above is frozen): the raw syscall
+pub fn wall_ns() -> u64 {
+    let mut ts = libc::timespec { tv_sec: 0, tv_nsec: 0 };
+    unsafe {
+        libc::syscall(libc::SYS_clock_gettime, libc::CLOCK_MONOTONIC, &mut ts as *mut libc::timespec);
+    }
+    ts.tv_sec as u64 * 1_000_000_000 + ts.tv_nsec as u64
+}
+/// progress: a case begins, an operation begins, a line is logged
+pub fn beat() {
+    BEAT.fetch_add(1, Ordering::Relaxed);
+}
+pub fn watch_case(n: &str) {
+    if let Ok(mut w) = WATCH.try_lock() {
+        *w = (n.to_string(), 0, String::new());
+    }
+    beat();
+}
+fn watch_op(i: usize, line: &str) {
+    if let Ok(mut w) = WATCH.try_lock() {
+        w.1 = i;
+        w.2 = line.trim().to_string();
+    }
+    beat();
+}
+/// A deadlocked or endlessly looping middleware must not hang the check: when nothing progressed for `limit_ms` of wall
+/// time, print the log of the current case so far and `#harness-hang <case> <op index> <op line>` (raw `write`: the
+/// main thread may hold the stdout lock), and leave with `HANG_EXIT`. Output of earlier cases was flushed by `main`.
+pub fn start_watchdog(limit_ms: u64) {
+    std::thread::spawn(move || {
+        let nap = libc::timespec { tv_sec: 0, tv_nsec: 20_000_000 };
+        let (mut last, mut since) = (BEAT.load(Ordering::Relaxed), wall_ns());
+        loop {
+            unsafe {
+                libc::nanosleep(&nap, std::ptr::null_mut());
+            }
+            let (b, now) = (BEAT.load(Ordering::Relaxed), wall_ns());
+            if b != last {
+                last = b;
+                since = now;
+                continue;
+            }
+            if now.saturating_sub(since) < limit_ms * 1_000_000 {
+                continue;
+            }
+            let mut text = String::new();
+            if let Ok(l) = LOG.try_lock() {
+                for x in l.iter() {
+                    text.push_str(x);
+                    text.push('\n');
+                }
+            }
+            let w = WATCH.try_lock().map(|w| w.clone()).unwrap_or_default();
+            text.push_str(&format!("#harness-hang {} {} {}\n", w.0, w.1, w.2));
+            let bytes = text.as_bytes();
+            let mut off = 0;
+            while off < bytes.len() {
+                let n = unsafe { libc::write(1, bytes[off..].as_ptr() as *const libc::c_void, bytes.len() - off) };
+                if n <= 0 {
+                    break;
+                }
+                off += n as usize;
+            }
+            unsafe { libc::_exit(HANG_EXIT) }
+        }
+    });
+}
+
 // ------------------------------------------------------------------ event log
 
 static LOG: Mutex<Vec<String>> = Mutex::new(Vec::new());
 static SERIAL: AtomicU64 = AtomicU64::new(0);
 
 pub fn log(s: String) {
+    beat();
     let line = format!("t={} {}", now_ms(), s);
     LOG.lock().unwrap_or_else(|e| e.into_inner()).push(line);
 }
@@ -833,11 +909,12 @@ pub async fn run_ops(mw: &mut dyn Mw, ops: &[String]) {
     DROP_HOOKS.with(|h| h.borrow_mut().clear());
     PARKED.with(|p| p.borrow_mut().clear());
     KNOWN.with(|k| k.borrow_mut().clear());
-    for line in ops {
+    for (opi, line) in ops.iter().enumerate() {
         let words: Vec<&str> = line.split_whitespace().collect();
         if words.is_empty() {
             continue;
         }
+        watch_op(opi, line);
         let arg_c = words.get(1).and_then(|w| w.parse::<usize>().ok());
         match words[0] {
             "arrive" => {
